@@ -20,11 +20,14 @@ def _mk(mod, cls, nx, fluid):
     return mod.SinglePhaseReservoir(Q(nx), fresh("pf", pos=True), fresh("pi", pos=True), fluid)
 
 
-def _differs(a, b):
-    """BoolT: some pair of corresponding values differs (False constant if all syntactically equal)."""
+def _differs(a, b, norm=None):
+    """BoolT: some pair of corresponding values differs (False constant if all syntactically equal).
+    `norm` rewrites a term with the equalities of the path condition (Context.normal)."""
     out = []
     for x, y in zip(a, b):
         d = T.p_sub(P(x), P(y))
+        if not d.is_zero() and norm is not None:
+            d = T.p_sub(norm(P(x)), norm(P(y)))
         if not d.is_zero() and not T.rational_equal(P(x), P(y)):
             out.append(T.b_not(T.b_eq0(d)))
     return T.b_or(*out) if out else T.b_const(False)
